@@ -20,8 +20,10 @@ NPool == Len(Pool)
 
 ka == <<97>>  kb == <<98>>  kx == <<120>>
 N1 == Num(1000)  N2 == Num(2000)
-Probes == << Obj(<<KV(ka, N1), KV(kb, N2), KV(kx, Obj(<<KV(ka, N1), KV(kb, Arr(<<N1>>))>>))>>),
-             Arr(<<Obj(<<KV(ka, N1)>>), Obj(<<KV(kb, N2)>>), Obj(<<KV(ka, N2), KV(kx, N1)>>)>>) >>
+\* "x<TAB>y" and "xty": the text x\ty means the first as a quoted member name and the second as a string literal
+kTab == <<120, 9, 121>>   kT == <<120, 116, 121>>
+Probes == << Obj(<<KV(ka, N1), KV(kb, N2), KV(kx, Obj(<<KV(ka, N1), KV(kb, Arr(<<N1>>))>>)), KV(kTab, Num(3000)), KV(kT, Num(4000))>>),
+             Arr(<<Obj(<<KV(ka, N1)>>), Obj(<<KV(kb, N2)>>), Obj(<<KV(ka, N2), KV(kx, N1)>>), Str(kTab), Str(kT)>>) >>
 
 \* outcome of one pool entry, computed once (constant level)
 OutcomeOf(e) ==
